@@ -107,7 +107,7 @@ func init() {
 		goStructPut,
 		objectHasProperty,
 		objectHasOwnProperty,
-		objectDefineOwnProperty,
+		goStructDefineOwnProperty,
 		objectDelete,
 		goStructEnumerate,
 		objectClone,
